@@ -35,8 +35,9 @@ func c03StmtImpl(c Case) []int64 {
 }
 
 type c03StmtGen struct {
-	r    *Rng
-	nlex int // counter for the names of let / const declarations (unique in a program: no redeclaration errors)
+	r     *Rng
+	nolet int // > 0 inside the body of a label (see case 4)
+	nlex  int // counter for the names of let / const declarations (unique in a program: no redeclaration errors)
 }
 
 func (g *c03StmtGen) kw(t js.TokenType) c03Jtok { return c03OpTok(t) }
@@ -94,6 +95,9 @@ func (g *c03StmtGen) stmt(depth int, decl bool) ([]c03Jtok, bool) {
 	if depth <= 0 && (k < 5 || k == 12 || k >= 14) {
 		k = 5 + r.Intn(7)
 	}
+	if !decl && g.nolet == 0 && r.Chance(1, 12) {
+		k = 18
+	}
 	block := func() []c03Jtok {
 		n := r.Intn(3)
 		ts := []c03Jtok{g.kw(js.OpenBraceToken)}
@@ -141,7 +145,9 @@ func (g *c03StmtGen) stmt(depth int, decl bool) ([]c03Jtok, bool) {
 	case 3: // do-while
 		return g.end(c03Cat(g.kw(js.DoToken), sub(), g.kw(js.WhileToken), cond()))
 	case 4: // label
+		g.nolet++ // the body of a label is parsed with declarations allowed: no `let b` there (it would declare b)
 		s, nl := g.stmt(depth-1, false)
+		g.nolet--
 		return c03Cat(c03Jt(js.IdentifierToken, "l"), c03TkColon, s), nl
 	case 5: // throw
 		return g.end(c03Cat(g.kw(js.ThrowToken), g.expr()))
@@ -190,6 +196,32 @@ func (g *c03StmtGen) stmt(depth int, decl bool) ([]c03Jtok, bool) {
 			}
 		}
 		return g.end(ts)
+	case 18: // `let` / `const` where no declaration is allowed (the body of if / while / do / for / with)
+		let := g.kw(js.LetToken)
+		g.nlex++
+		fresh := c03Jt(js.IdentifierToken, fmt.Sprintf("x%d", g.nlex)) // fresh: a mutation may turn `let x` into a declaration
+		switch r.Intn(8) {
+		case 0: // let b: the identifier let, then a missing terminator: an error
+			return g.end([]c03Jtok{let, fresh})
+		case 1: // let [: an error
+			return c03Cat(let, js.OpenBracketToken, c03TkA, js.CloseBracketToken, js.EqToken, c03TkB, c03TkSemi), false
+		case 2: // let { }: an error unless the brace starts a new line (then: the statement `let`, and a block)
+			ob := g.kw(js.OpenBraceToken)
+			if r.Bool() {
+				ob = c03WithLT(ob)
+			}
+			return c03Cat(let, ob, js.CloseBraceToken), false
+		case 3: // the expression statement `let`
+			return g.end([]c03Jtok{let})
+		case 4: // let, line break, b: two expression statements
+			return g.end([]c03Jtok{let, c03WithLT(fresh)})
+		case 5:
+			return g.end(c03Cat(let, js.EqToken, c03TkA))
+		case 6: // const: an error
+			return c03Cat(js.ConstToken, fresh, js.EqToken, c03TkA, c03TkSemi), false
+		default:
+			return g.end(c03Cat(let, c03TkLP, c03TkA, c03TkRP))
+		}
 	case 13: // debugger
 		return g.end([]c03Jtok{g.kw(js.DebuggerToken)})
 	case 14: // with
@@ -361,6 +393,47 @@ func c03StmtBraceOK(ts []c03Jtok) bool {
 					return false
 				}
 			}
+		}
+	}
+	// '[': an array literal or a destructuring pattern is outside the model; the one place the model answers is
+	// `let [` where a single statement is expected (after `else`, `do`, or the head of if / while / for / with)
+	for i, t := range ts {
+		if t.ty != js.OpenBracketToken {
+			continue
+		}
+		if i < 2 || ts[i-1].ty != js.LetToken {
+			return false
+		}
+		switch ts[i-2].ty {
+		case js.ElseToken, js.DoToken:
+		case js.CloseParenToken:
+			d, j := 0, i-2
+			for ; j >= 0; j-- {
+				if ts[j].ty == js.CloseParenToken {
+					d++
+				} else if ts[j].ty == js.OpenParenToken {
+					d--
+					if d == 0 {
+						break
+					}
+				}
+			}
+			if j < 1 {
+				return false
+			}
+			switch ts[j-1].ty {
+			case js.IfToken, js.ForToken, js.WithToken:
+			case js.WhileToken:
+				for _, u := range ts[:j] {
+					if u.ty == js.DoToken {
+						return false // possibly the end of a do-while statement
+					}
+				}
+			default:
+				return false
+			}
+		default:
+			return false
 		}
 	}
 	depth := 0
